@@ -838,7 +838,41 @@ def shard_seq2(acc, shard, nshards, params):
     core.drive(acc, "seq2", case_seq2, cases, shard, nshards, family="seq2[N=%d]" % params)
 
 
-CASES = {"iter1sp": case_iter1sp, "seq2": case_seq2, "lf1": case_lf1, "iter1": case_iter1, "and1": case_and1, "nest2": case_nest2, "matvec": case_matvec,
+def case_project2(case):
+    """A chain of two projections A -> B -> C (C is the loop rank): each projection gets its own project_<i> trace,
+    headed by the loop rank, one row per element read from its source with the source's coordinate and position."""
+    ac, s1, s2 = case
+    out = []
+    a = mkrow(ac)
+    a.getRankAttrs().setId("A")
+    regs = [("C", "iter"), ("B", "project_0"), ("A", "project_1")]
+
+    def nest():
+        f_b = a.project(trans_fn=lambda k: k + s1, rank_id="B")
+        f_c = f_b.project(trans_fn=lambda k: k + s2, rank_id="C")
+        for c, p in f_c:
+            pass
+    f = feats_cells(ac) | {"projection_chain"}
+    base = run_all("project2", nest, regs, f, out)
+    if base is None:
+        return out
+    pres = present(ac)
+    dm = list(range(len(pres)))
+    check_trace("project2", regs[0], base.get(regs[0], []), ["C"], [((k + s1 + s2,), i) for i, k in enumerate(pres)],
+                f, out, True)
+    check_trace("project2", regs[1], base.get(regs[1], []), ["C"], [((k + s1,), i) for i, k in enumerate(pres)],
+                f, out, False)
+    check_trace("project2", regs[2], base.get(regs[2], []), ["C"], [((k,), rawpos(ac, k)) for k in pres],
+                f, out, False, dm)
+    return out
+
+
+def shard_project2(acc, shard, nshards, params):
+    cases = ((c, s1, s2) for c in f1(params) for s1 in (1,) for s2 in (0, 10))
+    core.drive(acc, "project2", case_project2, cases, shard, nshards, family="project-chain[N=%d]" % params)
+
+
+CASES = {"project2": case_project2, "iter1sp": case_iter1sp, "seq2": case_seq2, "lf1": case_lf1, "iter1": case_iter1, "and1": case_and1, "nest2": case_nest2, "matvec": case_matvec,
          "matmul3": case_matmul3, "project": case_project, "popins": case_popins, "flat2": case_flat2,
          "popU": case_popU, "projpop2": case_projpop2}
 
@@ -847,6 +881,7 @@ def run(ctx):
     q = ctx.quick
     ctx.bounds = {
         "iter1": "F1(%d)" % (4 if q else 6), "and1": "pairs of F1(%d)" % (3 if q else 4),
+        "project2": "a chain of two projections A -> B -> C over F1(4): the loop rank's iter trace and both project_<i> traces",
         "iter1sp": "traced iterOccupancy(start_pos=p) for every p >= 1 over F1(%d)" % (4 if q else 5),
         "seq2": "a bounded iterRange(0, e) loop followed by an intersection at the same rank, pairs of F1(3), every e: the "
                 "second loop's rows (with stamps) equal those it produces alone",
@@ -863,6 +898,8 @@ def run(ctx):
         ctx.shards(shard_and1, 3 if q else 4)
     if sel("lf1"):
         ctx.shards(shard_lf1, 3 if q else 4)
+    if sel("project2"):
+        ctx.shards(shard_project2, 4)
     if sel("iter1sp"):
         ctx.shards(shard_iter1sp, 4 if q else 5)
     if sel("seq2"):
